@@ -289,21 +289,52 @@ func streamErsReconcile(r *rand.Rand, i int, tier string) *Case {
 	}
 	wl := &writeLog{}
 	cl := loggingClient(objs, wl, nil)
-	// canonical store as the API returns it
+	aff := r.Intn(2) == 0
+	rec, _ := ersctl.NewReconciler(ersctl.ReconcilerOptions{IsNodeAffinitySupported: aff}, cl, theScheme, logr.Discard(), record.NewFakeRecorder(1000))
+	in := ersInput(cl, testNS, testEDS, target.Name, aff, rec)
+	out, nowC := runErsReconcile(rec, cl, wl, testNS, testEDS, target.Name)
+	in["now"] = nowC
+	cat := w.cat
+	cat = append(cat, "kind:"+out.Kind, "target:"+target.Name)
+	if len(out.Creates) > 0 {
+		cat = append(cat, "creates")
+	}
+	if len(out.Deleted) > 0 {
+		cat = append(cat, "deletes")
+	}
+	if len(out.LabelAdds)+len(out.LabelRemoves) > 0 {
+		cat = append(cat, "label-patches")
+	}
+	if out.StatusUpdate == nil {
+		cat = append(cat, "no-status-write")
+	} else {
+		cat = append(cat, "role:"+out.StatusUpdate.Status)
+	}
+	return &Case{Fn: "ers_reconcile", In: in, Out: out, Cat: dedup(cat)}
+}
+
+// ersInput canonicalises what the replica-set reconcile of (ns, rsName) will read from the API.
+func ersInput(cl client.Client, ns, edsName, rsName string, aff bool, rec *ersctl.Reconciler) map[string]interface{} {
 	ctx := context.TODO()
 	stored := &edsv1.ExtendedDaemonSet{}
-	_ = cl.Get(ctx, types.NamespacedName{Namespace: testNS, Name: testEDS}, stored)
+	_ = cl.Get(ctx, types.NamespacedName{Namespace: ns, Name: edsName}, stored)
 	storedRS := &edsv1.ExtendedDaemonSetReplicaSet{}
-	_ = cl.Get(ctx, types.NamespacedName{Namespace: testNS, Name: target.Name}, storedRS)
+	_ = cl.Get(ctx, types.NamespacedName{Namespace: ns, Name: rsName}, storedRS)
 	nl := &corev1.NodeList{}
 	_ = cl.List(ctx, nl)
 	pl := &corev1.PodList{}
 	_ = cl.List(ctx, pl)
 	sl := &edsv1.ExtendedDaemonsetSettingList{}
 	_ = cl.List(ctx, sl)
+	dl := &appsv1.DaemonSetList{}
+	_ = cl.List(ctx, dl)
 	cnodes := []canon.Node{}
+	inBackoff := []string{}
 	for k := range nl.Items {
-		cnodes = append(cnodes, canon.CNode(&nl.Items[k], testNS, testEDS))
+		cnodes = append(cnodes, canon.CNode(&nl.Items[k], ns, edsName))
+		if rec != nil && rec.VerifBackoff().IsInBackOffSinceUpdate(ersctl.VerifBackoffKey(storedRS, nl.Items[k].Name), time.Now()) {
+			inBackoff = append(inBackoff, nl.Items[k].Name)
+		}
 	}
 	cpods := []canon.Pod{}
 	for k := range pl.Items {
@@ -314,22 +345,26 @@ func streamErsReconcile(r *rand.Rand, i int, tier string) *Case {
 		csets = append(csets, canon.CSetting(&sl.Items[k]))
 	}
 	cds := []dsJ{}
-	for _, d := range w.dss {
-		cds = append(cds, dsJ{d.Name, d.Namespace, canon.LS(d.Spec.Selector)})
+	for k := range dl.Items {
+		cds = append(cds, dsJ{dl.Items[k].Name, dl.Items[k].Namespace, canon.LS(dl.Items[k].Spec.Selector)})
 	}
-	aff := r.Intn(2) == 0
-	rec, _ := ersctl.NewReconciler(ersctl.ReconcilerOptions{IsNodeAffinitySupported: aff}, cl, theScheme, logr.Discard(), record.NewFakeRecorder(1000))
-	in := map[string]interface{}{"ers": canon.CERS(storedRS), "eds": canon.CEDS(stored), "nodes": cnodes, "pods": cpods, "settings": csets,
-		"daemonsets": cds, "affinity": aff}
+	return map[string]interface{}{"ers": canon.CERS(storedRS), "eds": canon.CEDS(stored), "nodes": cnodes, "pods": cpods, "settings": csets,
+		"daemonsets": cds, "affinity": aff, "inBackoff": inBackoff}
+}
+
+// runErsReconcile runs one Reconcile of the replica set (ns, rsName) and canonicalises the writes in wl.
+func runErsReconcile(rec *ersctl.Reconciler, cl client.Client, wl *writeLog, ns, edsName, rsName string) (ersOutJ, int64) {
+	ctx := context.TODO()
+	eds := &edsv1.ExtendedDaemonSet{}
+	_ = cl.Get(ctx, types.NamespacedName{Namespace: ns, Name: edsName}, eds)
 	t0 := time.Now()
 	var res reconcile.Result
 	var err error
 	p, pmsg := Recovered(func() {
-		res, err = rec.Reconcile(ctx, reconcile.Request{NamespacedName: types.NamespacedName{Namespace: testNS, Name: target.Name}})
+		res, err = rec.Reconcile(ctx, reconcile.Request{NamespacedName: types.NamespacedName{Namespace: ns, Name: rsName}})
 	})
 	t1 := time.Now()
 	nowC := canon.T(t0)
-	in["now"] = nowC
 	lo, hi := canon.T(t0.Truncate(time.Second)), canon.T(t1)
 	out := ersOutJ{Kind: "ok", Deleted: []string{}, LabelAdds: []string{}, LabelRemoves: []string{}, Creates: []createdJ{}, Order: wl.Order, Foreign: []string{}}
 	if out.Order == nil {
@@ -343,13 +378,13 @@ func streamErsReconcile(r *rand.Rand, i int, tier string) *Case {
 	}
 	out.Requeue, out.RequeueAfter = res.Requeue, int64(res.RequeueAfter)
 	own := func(pd *corev1.Pod) bool {
-		if pd.Namespace != testNS {
+		if pd.Namespace != ns {
 			return false
 		}
-		if pd.Labels[edsv1.ExtendedDaemonSetNameLabelKey] == testEDS {
+		if pd.Labels[edsv1.ExtendedDaemonSetNameLabelKey] == edsName {
 			return true
 		}
-		if dsn, ok := w.eds.Annotations[edsv1.ExtendedDaemonSetOldDaemonsetAnnotationKey]; ok {
+		if dsn, ok := eds.Annotations[edsv1.ExtendedDaemonSetOldDaemonsetAnnotationKey]; ok {
 			for _, o := range pd.OwnerReferences {
 				if o.Kind == "DaemonSet" && o.Name == dsn {
 					return true
@@ -405,7 +440,7 @@ func streamErsReconcile(r *rand.Rand, i int, tier string) *Case {
 		}
 	}
 	for _, o := range wl.Status {
-		if e, ok := o.(*edsv1.ExtendedDaemonSetReplicaSet); ok && e.Namespace == testNS && e.Name == target.Name {
+		if e, ok := o.(*edsv1.ExtendedDaemonSetReplicaSet); ok && e.Namespace == ns && e.Name == rsName {
 			st := canon.CERSStatus(&e.Status)
 			normErsStatusTimes(&st, lo, hi, nowC)
 			out.StatusUpdate = &st
@@ -420,21 +455,5 @@ func streamErsReconcile(r *rand.Rand, i int, tier string) *Case {
 	sort.Strings(out.LabelAdds)
 	sort.Strings(out.LabelRemoves)
 	sort.Slice(out.Creates, func(a, b int) bool { return out.Creates[a].Node < out.Creates[b].Node })
-	cat := w.cat
-	cat = append(cat, "kind:"+out.Kind, "target:"+target.Name)
-	if len(out.Creates) > 0 {
-		cat = append(cat, "creates")
-	}
-	if len(out.Deleted) > 0 {
-		cat = append(cat, "deletes")
-	}
-	if len(out.LabelAdds)+len(out.LabelRemoves) > 0 {
-		cat = append(cat, "label-patches")
-	}
-	if out.StatusUpdate == nil {
-		cat = append(cat, "no-status-write")
-	} else {
-		cat = append(cat, "role:"+out.StatusUpdate.Status)
-	}
-	return &Case{Fn: "ers_reconcile", In: in, Out: out, Cat: dedup(cat)}
+	return out, nowC
 }
